@@ -281,9 +281,13 @@ def decimal_exact_parse_rule(ctx):
             continue
         builds = any(strip_generics(cname(t)).endswith(('fmt::format', 'String::push_str', 'String::push', 'slice::<impl [T]>::concat', 'str::<impl str>::to_owned'))
                      for bb, t in calls)
+        after_trim = set()
+        for tb, t in calls:
+            if 'trim_end_matches' in strip_generics(cname(t)):
+                after_trim |= set(u.reachable_from(tb, avoid=set()))
         for bb, t in calls:
-            if not strip_generics(cname(t)).endswith('Decimal::from_str_exact'):
-                continue
+            if not strip_generics(cname(t)).endswith('Decimal::from_str_exact') or bb not in after_trim:
+                continue    # (the parse of the text as given, before anything was trimmed, is not a retry)
             n_retry += 1
             guarded = builds
             for d, si, taken in dominating_switches(u, bb):
@@ -457,18 +461,26 @@ def name_pair(ctx):
         if ("&'static str" in tys or '&str' in tys) and 'u8' not in tys.replace('&str', ''):
             tn = cb
     helper = None
+    # the precedence is an integer or a field-less private enum (ordered by discriminant, as derived `Ord` does)
+    prec_enums = {a['path']: {v['name']: v['discr'] for v in a['variants']} for a in f.j.get('adts', [])
+                  if a.get('kind') == 'enum' and a.get('variants') and all(not v.get('fields') for v in a['variants'])
+                  and all(isinstance(v.get('discr'), int) for v in a['variants'])}
     for cb in cls:
         tys = [(cb.local_ty(i) or '') for i in range(1, cb.nargs + 1)]
-        if any('Cow<' in t_ for t_ in tys) and any(t_ in ('u8', 'u16', 'u32', 'usize') for t_ in tys):
+        if any('Cow<' in t_ for t_ in tys) and any(t_ in ('u8', 'u16', 'u32', 'usize', 'i8', 'i16', 'i32', 'isize') or t_ in prec_enums for t_ in tys):
             helper = cb
     ok_names, ok_prec, det_prec = False, False, 'registration closures not found'
     if rn is not None and tn is not None:
         def const_ints(cb, t):
             out = set()
             for a in t.get('args', []):
-                for x in origin(cb, a).consts():
+                o = origin(cb, a)
+                for x in o.consts():
                     if isinstance(x, int):
                         out.add(x)
+                for at in o.atoms:
+                    if at[0] == 'agg' and at[1] in prec_enums and at[2] in prec_enums[at[1]]:
+                        out.add(prec_enums[at[1]][at[2]])
             return out
         if helper is not None:
             rcalls = [(bb, t) for bb, t in ccalls(rn) if (t.get('resolved') or '') == helper.id or 'FnMut' in cname(t) or 'Fn::call' in cname(t) or 'Fn>::call' in cname(t)]
